@@ -349,14 +349,20 @@ def deep_peel(e):
     return p
 
 
-def derived_facts(body, facts):
+def derived_facts(body, facts, with_dom=False):
     """a fact about a bool local that was assigned the result of a comparison (`let quoted = sep == "'" || ..`) is a fact
     about that comparison: of the definitions of the local, the constant ones that disagree with the fact cannot be the
-    one that reached here; when exactly one other definition remains, the fact holds for its expression"""
+    one that reached here; when exactly one other definition remains, the fact holds for its expression.  with_dom: the
+    facts that dominate that one definition held as well (`let g = a && b && !c` lowers to control flow: g is true only
+    through the block reached under a and b)"""
     out = list(facts)
-    for atom, val in list(facts):
-        if atom[0] != "var" or not isinstance(val, bool) or body.locals[atom[1]]["ty"] != "bool":
+    work = list(facts)
+    seen = set()
+    while work:
+        atom, val = work.pop()
+        if atom[0] != "var" or not isinstance(val, bool) or body.locals[atom[1]]["ty"] != "bool" or (atom[1], val) in seen:
             continue
+        seen.add((atom[1], val))
         cands = []
         for bi, si in body.defs.get(atom[1], []):
             e = strip_sites(body.def_expr(bi, si))
@@ -365,9 +371,19 @@ def derived_facts(body, facts):
                 if cb == val:
                     cands.append(None)          # a constant definition agreeing with the fact: nothing to learn
                 continue
-            cands.append(e)
+            cands.append((e, bi))
         if len(cands) == 1 and cands[0] is not None:
-            out.append((cands[0], val))
+            e, bi = cands[0]
+            new = [(e, val)]
+            if e[0] == "un" and e[1] == "Not":
+                new.append((e[2], not val))
+            if with_dom:
+                from .rules.c02 import dom_facts
+                new += [(strip_sites(a), v) for a, v in dom_facts(body, bi)]
+            for f in new:
+                if f not in out:
+                    out.append(f)
+                    work.append(f)
     return out
 
 
